@@ -111,4 +111,31 @@ CHECKS = {
         "tapes (random, r bad candidates then a good one, all-bad, candidates in [q, p)); signatures must equal the model and verify; every "
         "alteration of s0, s1, H, Q, OID, token, header is decided by the model on the altered input; DH symmetry, key transport round trip, IBS.",
    note="belt-hash/wblock/kwp inside the model are the library's (tied to the standard by C01); appendix vectors exist for l = 128 only."),
+ "C05": dict(level="exploration",
+   technique="header-formula oracle in Python integers / GF(2)[x] bit vectors over boundary catalogues, both word sizes, SAFE and FAST editions, under ASan",
+   text="146 word/ww/zz symbols and the zm/qr/gfp/pp/gf2 layers (all ring constructors incl. forced Plain/Crandall/Barrett/Montgomery) are "
+        "driven at operand lengths 0..20 words (32/64 in thorough) with operands from the boundary catalogue (0, 1, B^n-1, single bits, "
+        "multiples of the modulus, estimate-correction cases, both-odd / even cofactors, degrees at word boundaries), documented aliasing, "
+        "exact _deep stacks; all 16-bit helpers and all polynomial pairs of degree <= 7 (thorough 10) exhaustively; results and carries must "
+        "equal the header formula, modular results must be < mod, SAFE must equal FAST.",
+   note="word.h macros are covered through their users; one known finding (ppMinPolyMod on reducible moduli) is listed in known_findings.json."),
+ "C06": dict(level="exploration",
+   technique="affine group-law reference model over complete small curves (all ordered point pairs, all scalars up to 2*order+2) and constructed special cases on standard curves, under ASan",
+   text="neg/add/adda/sub/suba/dbl/dbla/tpl in Jacobian/LD, mixed and affine coordinates with randomised projective representatives and the "
+        "aliasing patterns c=a, c=b, a=b on every ordered pair (incl. O, P=Q, P=-Q, 2-torsion) of complete curves over GF(p), p <= 103 "
+        "(thorough 263), multi-word supersingular curves, binary subfield curves and the bign/bign96/GOST/DSTU curves; ecMulA for all scalars "
+        "on small curves and boundary scalars of every window width on standard ones; ecAddMulA grids; ecHasOrderA; on-curve tests; SWU.",
+   note="Groups of >= 64 bits are covered through small subgroups and constructed special cases only."),
+ "C07": dict(level="exploration",
+   technique="AddressSanitizer + UBSan(bounds,null) + live ASSERTs on exact-size heap buffers/states/stacks/blobs, replaying all functional workloads in 64- and 32-bit word builds, plus a two-fill definedness differential",
+   text="The case streams of C01-C06, C08, C09(args), C10-C13, C16, C17 are replayed under asan64 (two fill patterns) and asan32 with "
+        "every caller buffer, state (_keep), stack (_deep) and internal blob allocated at exactly its documented size; a sanitizer report, an "
+        "ASSERT abort or a fatal signal in bee2, or a transcript digest that depends on the scratch fill pattern, is a violation.",
+   note="Intra-allocation overruns are invisible to ASan; MemorySanitizer is not applicable to the ctypes driver; functions no workload reaches are not claimed."),
+ "C19": dict(level="exploration",
+   technique="N-way differential execution of identical case streams in separately built configurations, compared on per-case transcript digests",
+   text="The octet-level case streams of C01-C04, C10, C13, C16, C17 run in rel64, rel32 (32-bit words), fast64 (SAFE_FAST) and dbg64 (-O0, "
+        "ASSERT on); thorough adds dbg32, -O1, -O2, clang -O3, asan64; bash units additionally in the BASH_32/SSE2/AVX2/AVX-512 variants the "
+        "CPU supports; every case's digest of return codes and output octets must be identical in all configurations.",
+   note="Big-endian, B_PER_W = 16 and NEON cannot be built/run here; the 32-bit word configuration uses the guarded hook on the 64-bit ABI."),
 }
